@@ -231,7 +231,26 @@ def variants(rng, b, small):
     """(enc, text) forms of the octets b"""
     v = [("", b), ("7bit", b), ("8bit", b), ("base64", b64(b)), ("base64", b64(b, 76)), ("BASE64", b64(b, 20)),
          ("base64", b64(b, 76) + b"\r\n"), ("x-custom", b)]
+    v += [("base64", t) for t in twin_wraps(b)]
     return v
+
+
+def twin_wraps(b, base=0):
+    """two base64 wrappings of the octets b with DIFFERENT octets, the same decoded
+    content (hence the same blob hash) and the SAME encoded length: only a comparison
+    of the stored octets tells them apart (seeded change C15-5 compared lengths)"""
+    t = len(base64.b64encode(b))
+    n = -(-t // base) if base else 2
+    if t < 4 or n < 2:
+        return []
+    lo, hi = -(-t // n), -(-t // (n - 1)) - 1      # the widths that give n lines
+    ws = [w for w in range(lo, hi + 1)]
+    if base and base in ws:
+        others = [w for w in ws if w != base]
+        return [b64(b, base), b64(b, others[len(others) // 2])] if others else []
+    if len(ws) >= 2:
+        return [b64(b, ws[0]), b64(b, ws[-1])]
+    return []
 
 
 def gen_scenario(rng, idx, thorough):
@@ -244,6 +263,7 @@ def gen_scenario(rng, idx, thorough):
     fn_i = 0
     stored = []
     race_at = rng.randrange(nstore) if rng.random() < 0.25 else -1
+    twin_at = rng.randrange(nstore) if idx % 2 == 0 else -1
     for i in range(nstore):
         if i > 0 and rng.random() < 0.25:
             cfg = {"imap": rng.random() < 0.5, "lmtp": rng.random() < 0.5}
@@ -279,6 +299,23 @@ def gen_scenario(rng, idx, thorough):
                     fn_i += 1
                     fn = "f%d.bin" % fn_i
                 parts.append((enc, text, fn))
+        if i == twin_at:
+            # the same content in two wrappings of equal encoded length, one store after the
+            # other, local blob store or S3 as the configuration says
+            tb = rng.choice(big if rng.random() < 0.5 else pool[2:])
+            tw = twin_wraps(tb, 76 if len(tb) > 100 else 0)
+            if len(tw) == 2:
+                if rng.random() < 0.7:
+                    cfg = {"imap": False, "lmtp": False}
+                    steps.append(("config", dict(cfg)))
+                if rng.random() < 0.5:
+                    tw.reverse()
+                for t in tw:
+                    fn_i += 1
+                    tside = rng.choice(["lmtp", "imap"])
+                    steps.append(("store", tside, [], [("", b"see attachment", ""), ("base64", t, "t%d.bin" % fn_i)], False, ["alice"]))
+                    stored.append(t)
+                steps.append(("reads", "live"))
         writer_s3 = cfg[side]
         script = []
         if writer_s3 and rng.random() < 0.6:
